@@ -30,8 +30,10 @@ class Hist:
 
 
 def run_history(rng, nops, workdir):
-    conn = mockrepo.fresh_with_namespace_provider() if rng.random() < 0.4 \
-        else mockrepo.fresh()
+    x = rng.random()
+    conn = atomicops.fresh_empty_namespaces_first() if x < 0.12 else \
+        mockrepo.fresh_with_namespace_provider() if x < 0.4 else \
+        mockrepo.fresh()
     h = Hist()
     gen = atomicops.Gen(conn, rng, workdir)     # primes the start state
     items, desc = cimcanon.repo_items(conn)
@@ -84,6 +86,10 @@ def run(ctx):
             ("MockAtomicImplLegacySchemaList.cfg",
              "compile_schema_classes without a snapshot around the list of "
              "schema pragma files", ("schemalist",)),
+            ("MockAtomicImplDeleteClassProvider.cfg",
+             "DeleteClass keeps the instances deleted before the one its "
+             "provider rejects (the code today: known finding)",
+             ("DeleteClassProvider",)),
             ("MockAtomicImplLegacyNsScope.cfg",
              "batch snapshot covers only the target namespace; productions "
              "write into another namespace / create a namespace",
